@@ -41,6 +41,11 @@
 (*     branch's own map, or in an item whose recorded value is not what a   *)
 (*     read of the location returns (merge joins the recorded value of an   *)
 (*     item although a later store overwrote it);                           *)
+(*   VecKeyRewriteOrder  as StaleItems, when one of the overlapping items   *)
+(*     is a vector-valued pointer key: re-writing such a key keeps its old  *)
+(*     position in the item list, so the copy merge() works on (assume ->   *)
+(*     eval replays the items in list order) no longer holds what the map   *)
+(*     held;                                                                *)
 (*   VecStoreDropsItem  iff the failing byte is written in the branch's     *)
 (*     memory but no item of the branch's map covers it, and the branch     *)
 (*     stores through a vector-valued pointer (_Mem_write deletes the items *)
@@ -159,12 +164,17 @@ Itemless(i, o) ==
   /\ ~\E j \in 1..Len(T.items) :
         LET it == T.items[j] has == IF i = 1 THEN it.m1_has ELSE it.m2_has w == IF i = 1 THEN it.m1_w ELSE it.m2_w IN
         has = 1 /\ it.loc.k = "ptr" /\ \E d \in KeyOffs(it.loc) : d <= o /\ o < d + w \div 8
+CoveredByVec(i, o) ==
+  \E j \in 1..Len(T.items) :
+     LET it == T.items[j] has == IF i = 1 THEN it.m1_has ELSE it.m2_has w == IF i = 1 THEN it.m1_w ELSE it.m2_w IN
+     has = 1 /\ it.loc.k = "ptr" /\ it.loc.base.k = "vec" /\ \E d \in KeyOffs(it.loc) : d <= o /\ o < d + w \div 8
 CellClass(x) ==
   IF x[1] = "m" /\ IsSelfMem(T.cells[x[2]].mm, T.cells[x[2]].o) /\ UnderTopItem(T.cells[x[2]].o) THEN "TopReadAsBottom"
   ELSE IF x[1] = "m" /\ IsSelfMem(T.cells[x[2]].mm, T.cells[x[2]].o) /\ TopKey /\ T.thr > 0 THEN "TopPointerKey"
   ELSE IF x[1] = "m" /\ x[3] = 2 /\ T.cells[x[2]].o \in LostPlain THEN "SkipWiderSecond"
   ELSE IF x[1] = "m" /\ x[3] = 2 /\ T.cells[x[2]].o \in LostVec THEN "SkipWiderSecondVec"
-  ELSE IF x[1] = "m" /\ x[3] \in {1, 2} /\ (CoveredTwice(x[3], T.cells[x[2]].o) \/ StaleAt(x[3], T.cells[x[2]].o)) THEN "StaleItems"
+  ELSE IF x[1] = "m" /\ x[3] \in {1, 2} /\ (CoveredTwice(x[3], T.cells[x[2]].o) \/ StaleAt(x[3], T.cells[x[2]].o))
+       THEN (IF CoveredByVec(x[3], T.cells[x[2]].o) THEN "VecKeyRewriteOrder" ELSE "StaleItems")
   ELSE IF x[1] = "m" /\ x[3] \in {1, 2} /\ Itemless(x[3], T.cells[x[2]].o) THEN "VecStoreDropsItem"
   ELSE IF x[1] = "i" /\ x[2] \in WiderSecond /\ x[3] = 2 THEN (IF x[2] \in WiderVec THEN "SkipWiderSecondVec" ELSE "SkipWiderSecond")
   ELSE IF x[1] = "k" /\ T.items[x[2]].loc.k = "ptr" /\ T.items[x[2]].loc.base.k = "top" /\ T.thr > 0 THEN "TopPointerKey"
